@@ -388,11 +388,45 @@ def _sq(axis, val):
     return out
 
 
+# A box that is NOT a cube and not anchored at the origin: all six bounds differ (x in [0,4], y in [-2,1], z in [2,8]).  Its sides
+# are given either as six rectangles or -- as in any triangulated surface description -- as twelve triangles (two coplanar
+# triangles per side, the diagonal alternating between the sides).  The solid, and hence the oracle, is the same in both cases.
+BOX_LO, BOX_HI = (0, -2, 2), (4, 1, 8)
+BOX_PLANES = [((-1, 0, 0), -BOX_LO[0]), ((1, 0, 0), BOX_HI[0]), ((0, -1, 0), -BOX_LO[1]), ((0, 1, 0), BOX_HI[1]),
+              ((0, 0, -1), -BOX_LO[2]), ((0, 0, 1), BOX_HI[2])]
+BOX = "box 4x3x6"
+BOX_TRI = "box 4x3x6 (sides as two triangles)"
+
+
+def _box_faces(lo, hi, triangulate):
+    faces = []
+    for axis in range(3):
+        o = [i for i in range(3) if i != axis]
+        for val in (lo[axis], hi[axis]):
+            q = []
+            for a, b in ((lo[o[0]], lo[o[1]]), (hi[o[0]], lo[o[1]]), (hi[o[0]], hi[o[1]]), (lo[o[0]], hi[o[1]])):
+                p = [0, 0, 0]
+                p[axis], p[o[0]], p[o[1]] = val, a, b
+                q.append(tuple(p))
+            if not triangulate:
+                faces.append(q)
+            elif len(faces) % 4 == 0:
+                faces += [[q[0], q[1], q[2]], [q[0], q[2], q[3]]]
+            else:
+                faces += [[q[0], q[1], q[3]], [q[1], q[2], q[3]]]
+    return faces
+
+
 SOLIDS = {
     "cube": (CUBE_PLANES, [_sq(0, 0), _sq(0, 4), _sq(1, 0), _sq(1, 4), _sq(2, 0), _sq(2, 4)]),
     "tetrahedron": (TET_PLANES, [[(0, 0, 0), (0, 4, 0), (4, 0, 0)], [(0, 0, 0), (4, 0, 0), (0, 0, 4)], [(0, 0, 0), (0, 0, 4), (0, 4, 0)],
                                  [(4, 0, 0), (0, 4, 0), (0, 0, 4)]]),
+    BOX: (BOX_PLANES, _box_faces(BOX_LO, BOX_HI, False)),
+    BOX_TRI: (BOX_PLANES, _box_faces(BOX_LO, BOX_HI, True)),
 }
+# solids whose polygons are restricted to general position (see _general_position); the degenerate placements are enumerated
+# with the cube and the tetrahedron
+GENERAL_POSITION_ONLY = (BOX, BOX_TRI)
 
 
 def clip_halfspace(poly, n, c):
@@ -469,7 +503,7 @@ def check_polyhedron(pp, solid, polys, how):
     try:
         out, idx = pp.constrain_geometry.polygons_by_polyhedron([np.array(p, dtype=float).T for p in polys], [np.array(f, dtype=float).T for f in faces])
     except Exception as ex:  # noqa: BLE001
-        cls = _poly_class(polys[0], planes) if len(polys) == 1 else "batch"
+        cls = (_poly_class(polys[0], planes) + _hang_class(polys[0], solid)) if len(polys) == 1 else "batch"
         return [("polygons_by_polyhedron: does not raise", f"{solid}, {cls}: {type(ex).__name__}",
                  f"{polys}: {type(ex).__name__}: {ex}")]
     fails = []
@@ -481,7 +515,7 @@ def check_polyhedron(pp, solid, polys, how):
     for i, p in enumerate(polys):
         ex = exact_clip(p, planes)
         cls = _poly_class(p, planes)
-        sig = f"{solid}, {cls}"
+        sig = f"{solid}, {cls}" + _hang_class(p, solid)
         mine = [np.asarray(o, dtype=float) for o, j in zip(out, idx) if j == i]
         tot = 0.0
         for piece in mine:
@@ -532,6 +566,90 @@ def _poly_class(p, planes):
 
 def _coplanar_with_face(p, planes):
     return any(all(dot(n, q) == c for q in p) for n, c in planes)
+
+
+def _general_position(p, planes, faces):
+    """Exact.  The (planar, convex, integer) polygon p is in general position w.r.t. the polyhedron given by `faces`:
+      * no vertex of p lies in the plane of a side;
+      * wherever an edge of p passes through a plane of a side, the point of passage -- if it belongs to the closed solid -- lies in
+        the interior of one of the given side polygons, i.e. not on a polyhedron edge/corner and not on a line along which a side
+        is subdivided into several coplanar polygons;
+      * no vertex of a side polygon (corner of the polyhedron) lies in the plane of p.
+    """
+    vals = [[dot(n, q) - c for n, c in planes] for q in p]
+    if any(v == 0 for vs in vals for v in vs):
+        return False
+    k = len(p)
+    nrm = area_vec([sub(q, p[0]) for q in p])
+    for f in faces:
+        for v in f:
+            if dot(nrm, sub(v, p[0])) == 0:
+                return False
+    for i in range(k):
+        a, b = p[i], p[(i + 1) % k]
+        for j in range(len(planes)):
+            va, vb = vals[i][j], vals[(i + 1) % k][j]
+            if (va < 0 < vb) or (vb < 0 < va):
+                t = Fraction(va) / (va - vb)
+                x = tuple(u + t * (w - u) for u, w in zip(a, b))
+                if any(dot(m, x) - cc > 0 for m, cc in planes):
+                    continue
+                for f in faces:
+                    if any(on_segment(x, f[e], f[(e + 1) % len(f)]) for e in range(len(f))):
+                        return False
+    return True
+
+
+def _hang_class(p, solid):
+    """signature suffix; empty for solids whose sides are single polygons (cube, tetrahedron, box)"""
+    if not _subdivision_lines(solid):
+        return ""
+    h = _hanging_nodes(p, solid)
+    return "; no hanging node" if h == 0 else ("; one hanging node" if h == 1 else "; several hanging nodes")
+
+
+_SUBDIV = {}
+
+
+def _subdivision_lines(solid):
+    """edges shared by two COPLANAR side polygons of the solid (lines along which a planar side is subdivided)"""
+    if solid not in _SUBDIV:
+        faces = SOLIDS[solid][1]
+        inner = []
+        for a_i, f in enumerate(faces):
+            for e in range(len(f)):
+                s, t = f[e], f[(e + 1) % len(f)]
+                for g in faces[a_i + 1:]:
+                    if any({g[h], g[(h + 1) % len(g)]} == {s, t} for h in range(len(g))):
+                        nf, ng = area_vec([sub(q, f[0]) for q in f]), area_vec([sub(q, g[0]) for q in g])
+                        if not any(cross3(nf, ng)):
+                            inner.append((s, t))
+        _SUBDIV[solid] = inner
+    return _SUBDIV[solid]
+
+
+def _hanging_nodes(p, solid):
+    """number of points at which the outline of (p /\\ solid) crosses a line separating two coplanar side polygons (exact); these are
+    the hanging nodes of the clipped outline.  Used to classify cases only."""
+    inner = _subdivision_lines(solid)
+    ex = exact_clip(p, SOLIDS[solid][0]) if inner else []
+    if not ex:
+        return 0
+    cnt = 0
+    k = len(ex)
+    for s, t in inner:
+        for i in range(k):
+            a, b = ex[i], ex[(i + 1) % k]
+            # proper crossing of the segments [a,b] and [s,t]: coplanar, not parallel, s,t strictly on opposite sides of the line ab
+            # and a,b strictly on opposite sides of the line st
+            d, e2 = sub(b, a), sub(t, s)
+            n = cross3(d, e2)
+            if not any(n) or dot(sub(s, a), n) != 0:
+                continue
+            if dot(cross3(d, sub(s, a)), n) * dot(cross3(d, sub(t, a)), n) < 0 and \
+                    dot(cross3(e2, sub(a, s)), n) * dot(cross3(e2, sub(b, s)), n) < 0:
+                cnt += 1
+    return cnt
 
 
 def sweep_polyhedron(rep, pp, quick):
@@ -587,6 +705,79 @@ def sweep_polyhedron(rep, pp, quick):
                     rep.violation(ob, sig, inputs={"fn": "polygons_by_polyhedron", "solid": solid, "polygon": p}, detail=detail)
 
 
+def sweep_box(rep, pp, quick):
+    """Non-cubic box, sides given as rectangles and as pairs of coplanar triangles; polygons in general position only."""
+    lo, hi = BOX_LO, BOX_HI
+    # corner coordinates per axis: one unit outside / inside either bound (never a bound itself -> no vertex in a face plane)
+    cval = [(lo[a] - 1, lo[a] + 1, hi[a] - 1, hi[a] + 1) for a in range(3)]
+    offs = [(1,), (-1,), (3, 7)] if quick else [(1, 2, 3), (-1, 0), (3, 4, 5, 6, 7)]  # planes strictly between the bounds
+    rects = []
+    for axis in range(3):
+        o = [i for i in range(3) if i != axis]
+        for off in offs[axis]:
+            for (a0, a1) in itertools.combinations(cval[o[0]], 2):
+                for (b0, b1) in itertools.combinations(cval[o[1]], 2):
+                    r = []
+                    for a, b in ((a0, b0), (a1, b0), (a1, b1), (a0, b1)):
+                        q = [0, 0, 0]
+                        q[axis], q[o[0]], q[o[1]] = off, a, b
+                        r.append(tuple(q))
+                    rects.append(r)
+    rng = rep.rng
+    nseed = 70 if quick else 2500
+    rngs = [range(lo[a] - 1, hi[a] + 2) for a in range(3)]
+    with rep.sweep(
+        "polygons_by_polyhedron: non-cubic box, sides as one or as several coplanar polygons",
+        rule=f"box [{lo[0]},{hi[0]}]x[{lo[1]},{hi[1]}]x[{lo[2]},{hi[2]}] (all six bounds distinct, zmax > ymax, xmax > ymax) with its sides given "
+             "(i) as six rectangles, (ii) as twelve triangles (every side split along a diagonal, alternating direction): every axis-parallel "
+             f"rectangle in the planes x={offs[0]}, y={offs[1]}, z={offs[2]} with corner coordinates one unit inside/outside the bounds; seeded "
+             "integer triangles and parallelograms (a, a+u, a+u+v, a+v) with vertices within one unit of the box; only polygons in GENERAL "
+             "POSITION are admitted (no vertex in a side plane, outline not through a polyhedron edge/corner nor through a point of a "
+             "subdivision line, no corner of the polyhedron in the polygon's plane; decided exactly) -- the others are skipped; one polygon "
+             "per call, every 7th additionally in a batch of three; non-trivial = the polygon is cut by the box; for (ii) the number of "
+             "hanging nodes of the clipped outline (its crossings with the subdivision lines) is part of the case class; distinct by "
+             "(solid, polygon)",
+        bound=f"2 x ({len(rects)} rectangles + {nseed} seeded triangles/parallelograms)",
+        exhaustive=False,
+    ) as sw:
+        box = list(itertools.product(*rngs))
+        seeded = []
+        while len(seeded) < nseed:
+            if len(seeded) % 2:
+                t = [rng.choice(box) for _ in range(3)]
+                if not any(cross3(sub(t[1], t[0]), sub(t[2], t[0]))):
+                    continue
+            else:
+                a = rng.choice(box)
+                u = tuple(rng.randint(-4, 4) for _ in range(3))
+                v = tuple(rng.randint(-4, 4) for _ in range(3))
+                if not any(cross3(u, v)):
+                    continue
+                t = [a, tuple(x + y for x, y in zip(a, u)), tuple(x + y + z for x, y, z in zip(a, u, v)), tuple(x + z for x, z in zip(a, v))]
+                if any(not (rngs[i][0] - 2 <= q[i] <= rngs[i][-1] + 2) for q in t for i in range(3)):
+                    continue
+            seeded.append(t)
+        for solid in GENERAL_POSITION_ONLY:
+            planes, faces = SOLIDS[solid]
+            polys = [p for p in rects + seeded]
+            ok = [_general_position(p, planes, faces) for p in polys]
+            for k, p in enumerate(polys):
+                if not ok[k]:
+                    sw.skip()
+                    continue
+                cls = _poly_class(p, planes) + _hang_class(p, solid)
+                sw.case(key=(solid, tuple(p)), nontrivial=cls.startswith("cut"), sample={"solid": solid, "polygon": p, "class": cls})
+                fails = check_polyhedron(pp, solid, [p], "single polygon")
+                if k % 7 == 0:
+                    batch = [polys[j] for j in (k, (k + 1) % len(polys), (k + 5) % len(polys)) if ok[j]]
+                    single = [check_polyhedron(pp, solid, [q], "single polygon") for q in batch[1:]]
+                    bf = check_polyhedron(pp, solid, batch, "batch")
+                    if bf and not fails and not any(single):
+                        fails += [(ob, f"{solid}, three polygons in one call (each of them passes alone)", d) for ob, sig, d in bf]
+                for ob, sig, detail in fails:
+                    rep.violation(ob, sig, inputs={"fn": "polygons_by_polyhedron", "solid": solid, "polygon": p}, detail=detail)
+
+
 def run(rep):
     import warnings
 
@@ -603,6 +794,7 @@ def run(rep):
         warnings.simplefilter("ignore")
         sweep_lines(rep, pp, quick)
         sweep_polyhedron(rep, pp, quick)
+        sweep_box(rep, pp, quick)
 
 
 def replay(data):
